@@ -324,6 +324,7 @@ func init() {
 		rc.Set("history_depth", depth)
 		rc.Set("pattern_max_len", plen)
 		rc.Assume = append(rc.Assume,
+			"(c) patterns whose segments are 32765..32770 and 65540 bytes long (ASCII and 3-byte characters, so that the limit is also crossed in characters but not in bytes and vice versa) after literal text and after each kind of parameter, through the same trial as every enumerated pattern",
 			"(a) every state of the C03 history search up to the depth bound is probed with 6 method strings (incl. empty and unknown) x hostile paths: '', '*', all strings over {/ a { } : * 0x00 0x80 0xff} up to length 2-3, witnesses and their edit-1 neighbours, 32767/32768/65536-byte paths",
 			"(a') groups with one router behind each matcher kind (Hosts, path version, header version, And, Or, nil) x hostile Host strings (all strings over {a . : [ ] * { 0xff} up to length 3 and a fixed list) x paths x Accept values; matchers also called directly",
 			"(a'') every CORS configuration of C11 x every request of its product extended with malformed Access-Control-Request-Headers values: no panic",
@@ -366,6 +367,25 @@ func init() {
 			}
 		}
 		explore.ParMap(rc, "c05/patterns", pi, func(i int, in c05PatItem, o simpleOut) { mergeSimple(rc, o, "pattern_strings") })
+		// length classes around the 32767-byte segment limit, in bytes and in characters (3-byte characters: the
+		// limit is reached at 10923 of them), after literal text and after each kind of parameter; every such
+		// pattern goes through the same trial as the short ones (fresh and populated router, renamed twin, URL)
+		for _, head := range []string{"/", "/{a}/", "/{a:\\d+}/", "/a/{-a}"} {
+			for _, unit := range []string{"x", "\u4e2d"} {
+				for _, total := range []int{32765, 32766, 32767, 32768, 32770, 65540} {
+					n := (total - len(head) + 1) / len(unit)
+					for _, k := range []int{n - 1, n, n + 1} {
+						p := head + strings.Repeat(unit, k)
+						step, class, obs, exp, outcome := patternTrial(p)
+						rc.Add("long_patterns", 1)
+						rc.Outcome("long/" + outcome)
+						if class != "" {
+							rc.Report(explore.Violation{Property: "C05", Clause: "C05.pattern", Class: class, Probe: fmt.Sprintf("pattern %q + %d x %q (%d bytes): %s", head, k, unit, len(p), step), Observed: obs, Expected: exp})
+						}
+					}
+				}
+			}
+		}
 	}})
 }
 
